@@ -99,6 +99,8 @@ def product_cases(draw, max_lines=12, max_pixels=6, max_images=3, levels=("1.1",
         blank = draw(st.lists(st.sampled_from(HEADER_OPTIONAL), unique=True, max_size=5))
         if blank:
             im["blank_header"] = sorted(blank)
+        if draw(st.integers(0, 3)) == 0:
+            im["cross_midnight"] = True  # line times run over midnight when the instant is late in the day
         images.append(im)
     leader = {
         "n_att": draw(st.integers(1, 6)),
@@ -107,6 +109,8 @@ def product_cases(draw, max_lines=12, max_pixels=6, max_images=3, levels=("1.1",
         "designator": draw(st.sampled_from(product.DESIGNATORS)),
         "facility_lengths": [draw(st.integers(66, 160)) for _ in range(4)],
         "instant": draw(instants()),
+        "repeat_attitude_times": draw(st.sampled_from([False, False, True])),
+        "scene_center_offset_ms": draw(st.sampled_from([0, 0, 600_000, 3_600_000])),
     }
     return {
         "level": level,
